@@ -48,6 +48,8 @@ func checkC05(p *Prog, r *Report) {
 	c05ActionMap(p, r, rr)
 	c05Progress(p, r, rr)
 	c15PlanNext(p, r, "C05.plan-bounded")
+	// a plan already handed out to a request must stay what it was while hosts come and go
+	c15Cow(p, r, "C05")
 }
 
 func c05PolicyTable(p *Prog, r *Report) {
